@@ -66,6 +66,12 @@ type x13H struct {
 	kind string // kind of the running case
 	seen map[string]bool
 	desc map[string]interface{}
+
+	// request class of the running request ("" = the ordinary request set, otherwise the
+	// client-gone mode, see c13_gone_test.go) and the panic signatures ordinary requests
+	// of the running case produced already
+	reqClass string
+	caseSigs map[string]bool
 }
 
 func (h *x13H) count(what string) { h.r.Count(what+"/"+h.kind, 1) }
@@ -165,6 +171,16 @@ func (h *x13H) logPanic(sig, phase string) {
 func (h *x13H) report(phase, msg, site string) {
 	h.count("panics")
 	sig := fmt.Sprintf("C13/%s:panic:%s:%s", h.kind, site, x13Class(msg))
+	if h.reqClass == "" {
+		if h.caseSigs != nil {
+			h.caseSigs[sig] = true
+		}
+	} else if !h.caseSigs[sig] {
+		// a panic that the ordinary requests of this case did not produce: it needs a
+		// request whose client goes away, and says so in its signature
+		sig += ":on=client-gone"
+		h.count("panics_client_gone")
+	}
 	h.r.Cover("panic:" + h.kind + ":" + site)
 	h.r.Count("panic_sig/"+sig, 1)
 	h.logPanic(sig, phase)
@@ -178,6 +194,9 @@ func (h *x13H) report(phase, msg, site string) {
 		h.r.Inconclusive("more distinct panic signatures in one part than the kit can carry; split the part")
 	}
 	d := map[string]interface{}{"phase": phase, "panic": msg, "site": site}
+	if h.reqClass != "" {
+		d["request"] = "client-gone/" + h.reqClass
+	}
 	for k, v := range h.desc {
 		d[k] = v
 	}
@@ -282,6 +301,11 @@ func (h *x13H) stdReq(q *x13Req, ctx stdcontext.Context) *http.Request {
 // newCtx builds the context a filter sees inside a pipeline behind an HTTPServer.
 func (h *x13H) newCtx(q *x13Req, withResp bool) (*context.Context, stdcontext.CancelFunc) {
 	sctx, cancel := stdcontext.WithTimeout(stdcontext.Background(), 400*time.Millisecond)
+	return h.newCtxOn(q, withResp, sctx), cancel
+}
+
+// newCtxOn: the same for a request that lives on the given (cancellable) context.
+func (h *x13H) newCtxOn(q *x13Req, withResp bool, sctx stdcontext.Context) *context.Context {
 	stdr := h.stdReq(q, sctx)
 	req, _ := httpprot.NewRequest(stdr)
 	if q.stream {
@@ -310,7 +334,7 @@ func (h *x13H) newCtx(q *x13Req, withResp bool) (*context.Context, stdcontext.Ca
 		}
 		ctx.SetResponse(context.DefaultNamespace, resp)
 	}
-	return ctx, cancel
+	return ctx
 }
 
 // ---------------------------------------------------------------- filters
@@ -328,7 +352,7 @@ func x13PoliciesFor(tree interface{}) map[string]resilience.Policy {
 				if s, ok := val.(string); ok && s != "" {
 					switch k {
 					case "retryPolicy":
-						p, err := resilience.NewPolicy(map[string]interface{}{"kind": "Retry", "name": "verif-r", "maxAttempts": 2, "waitDuration": "1ms"})
+						p, err := resilience.NewPolicy(map[string]interface{}{"kind": "Retry", "name": "verif-r", "maxAttempts": 2, "waitDuration": x13RetryWait})
 						if err == nil {
 							out[s] = p
 						}
@@ -434,6 +458,14 @@ func (h *x13H) runFilter(seed *x13Seed, tree map[string]interface{}) (accepted b
 		}
 	}
 	handle(f, 0)
+	if seed.Cat == x13FilterHTTP {
+		handled += h.clientGone(func(q *x13Req, sctx stdcontext.Context) bool {
+			ctx := h.newCtxOn(q, false, sctx)
+			p := h.guard("handle", func() { f.Handle(ctx) })
+			h.guard("consume", func() { x13Consume(ctx) })
+			return p
+		})
+	}
 	h.guard("status", func() { f.Status() })
 	// update with an unchanged spec, the way Pipeline.reload does it
 	spec2, err := filters.NewSpec(h.env.super, "verif-pipeline", x13Export(tree))
@@ -545,6 +577,12 @@ func (h *x13H) runPipeline(seed *x13Seed, tree map[string]interface{}) bool {
 	}
 	h.count("instantiated")
 	handled := h.pipelineHandle(func(ctx *context.Context) { p.Handle(ctx) }, 0)
+	handled += h.clientGone(func(q *x13Req, sctx stdcontext.Context) bool {
+		ctx := h.newCtxOn(q, false, sctx)
+		pn := h.guard("handle", func() { p.Handle(ctx) })
+		h.guard("consume", func() { x13Consume(ctx) })
+		return pn
+	})
 	h.guard("status", func() { p.Status() })
 	ss2, err := supervisor.NewSpec(y)
 	if err == nil {
@@ -577,6 +615,13 @@ func (h *x13H) runGlobalFilter(seed *x13Seed, tree map[string]interface{}) bool 
 		pl := h.env.mapper.pipes[name]
 		handled += h.pipelineHandle(func(ctx *context.Context) { gf.Handle(ctx, pl) }, 8)
 	}
+	// the client goes away while the pipeline between the two halves waits for its backend
+	handled += h.clientGone(func(q *x13Req, sctx stdcontext.Context) bool {
+		ctx := h.newCtxOn(q, false, sctx)
+		pn := h.guard("handle", func() { gf.Handle(ctx, h.env.mapper.pipes["be-proxy"]) })
+		h.guard("consume", func() { x13Consume(ctx) })
+		return pn
+	})
 	h.guard("status", func() { gf.Status() })
 	ss2, err := supervisor.NewSpec(y)
 	if err == nil {
@@ -621,6 +666,13 @@ func (h *x13H) runHTTPServer(seed *x13Seed, tree map[string]interface{}) bool {
 		}
 		cancel()
 	}
+	// the client goes away while the routed pipeline waits for its backend (net/http
+	// cancels the request's context when the connection is lost)
+	handled += h.clientGone(func(q *x13Req, sctx stdcontext.Context) bool {
+		stdr := h.stdReq(q, sctx)
+		w := httptest.NewRecorder()
+		return h.guard("serve", func() { m.ServeHTTP(w, stdr) })
+	})
 	h.guard("mux.reload-again", func() { m.reload(ss, mapper) })
 	h.guard("mux.close", func() { m.close() })
 
@@ -909,6 +961,7 @@ func (h *x13H) runResilience(seed *x13Seed, tree map[string]interface{}) bool {
 		}
 		time.Sleep(7 * time.Millisecond) // lets a short waitDurationInOpenState elapse
 	}
+	handled += h.resilienceClientGone(w)
 	// a second wrapper from the same policy (every server pool creates its own)
 	h.guard("createWrapper", func() { pol.CreateWrapper().Wrap(outcomes[0])(stdcontext.Background()) })
 	h.r.Count("handled/"+h.kind, int64(handled))
@@ -1014,7 +1067,12 @@ func x13RunPart(t *testing.T, part string) {
 		"the full cross product when it has <= 420 tuples, otherwise every pair of sections in every pair of variants with the other sections at a valid default, thorough: the full product or a seeded sample), " +
 		"then seeded pairs/triples of mutations. " +
 		"Accepted specs are instantiated in a real single-member cluster + supervisor and driven with 15 varied HTTP requests (with/without response, stream bodies, odd headers, signed, JWT, basic auth, TLS peer cert) " +
-		"or 14 MQTT packets / a raw MQTT conversation / 20 resilience calls, then Status, Inherit(unchanged spec), Close. distinct = (kind, mutation point shape, mutation class, outcome) resp. (kind, section variant tuple, outcome)")
+		"or 14 MQTT packets / a raw MQTT conversation / 20 resilience calls, " +
+		"then (every kind with a request context) 4 CLIENT-GONE requests whose own context is cancelled (context.Canceled, not the deadline): when the filter's call has arrived at the local backend / introspection / remote end point and is kept unanswered (main pool GET, candidate pool POST with body), " +
+		"3 ms after the backend answered 503 (falls into the 20 ms back-off of the retry policy), and before the filter runs; event driven by the backend, which answers once the filter returned or 60 ms after the cancellation; " +
+		"resilience wrappers: 5 calls cancelled before / by the wrapped call (error, success) / when the failed attempt returns / 0.5 ms into the back-off; " +
+		"then Status, Inherit(unchanged spec), Close. distinct = (kind, mutation point shape, mutation class, outcome) resp. (kind, section variant tuple, outcome) resp. (kind, client-gone mode, filter still waiting, outcome); " +
+		"a panic that only a client-gone request of a case produces carries the suffix :on=client-gone")
 	r.Assume("WasmHost is not registered in this build (build tag wasmhost) and is not covered; http3=true runs against the build stub of quic-go")
 	r.Assume("HTTP filters get HTTP contexts, MQTT filters MQTT contexts (protocol mismatch between a traffic gate and its pipeline is not generated); listening ports are chosen by the harness")
 	r.Assume("Kafka/KafkaMQTT run against sarama's in-process mock broker; a spec whose (mutated) broker address is unreachable is validated but not instantiated")
@@ -1127,6 +1185,8 @@ func x13RunPart(t *testing.T, part string) {
 	r.Count("acceptance_margin(3*accepted-specs)", 3*totalAcc-totalSpecs)
 	r.Require("acceptance_margin(3*accepted-specs)", 0)
 	r.Require("seed_accepted", 1)
+	// the client-gone request class (c13_gone_test.go) was exercised for every kind that has a request context
+	x13GoneRequire(h, kinds)
 	// section products: every tuple of the list was run, and both verdicts of validation occurred
 	for k, n := range prodWant {
 		r.Count(x13ProdCounter(k, "total"), 0)
@@ -1149,6 +1209,7 @@ func (h *x13H) runCase(i int, c x13Case, isSeed bool) {
 		}
 	}
 	h.kind = c.seed.Kind
+	h.reqClass, h.caseSigs = "", map[string]bool{}
 	h.desc = map[string]interface{}{"kind": c.seed.Kind, "seed": c.seed.ID, "mutations": descs, "yaml": x13ToYAML(tree)}
 	r.Case(i, h.desc)
 	h.count("specs")
